@@ -9,7 +9,8 @@
 (* <<clause id, line number>> pairs that failed.                            *)
 (*                                                                         *)
 (* Input  (IOEnv.TRACE_FILE): [programs |-> Seq(P), traces |-> Seq(T)]      *)
-(*   T = [id, pi (index into programs), amb, overlap, poolmissing, lines]   *)
+(*   T = [id, pi (index into programs), amb, overlap, poolmissing, faulty,  *)
+(*        lines]                                                           *)
 (* Output (IOEnv.OUT_FILE): JSON sequence of [id, viol |-> Seq(<<c, l>>)]   *)
 (***************************************************************************)
 EXTENDS Dataflow, Json, IOUtils
@@ -207,9 +208,11 @@ CheckReturn(P, T, sm, s, ln) ==
     ELSE
       (IF kind = "cancelled" \/ v = <<"cancelled">> THEN {"C05.noartefact"} ELSE {})
       \cup
-      (IF kind = "raised" /\ ~IsBaseTok(v) THEN {"C05.noraise"} ELSE {})
+      (* (with a collaborator that raises - T.faulty - its exception is a legitimate outcome, also for chart.run itself
+          when on_pipeline_start raises) *)
+      (IF kind = "raised" /\ ~IsBaseTok(v) /\ ~T.faulty THEN {"C05.noraise"} ELSE {})
       \cup
-      (IF kind = "error" /\ v[1] \in {"exc", "err_copy"} THEN {"C05.noartefact"} ELSE {})
+      (IF kind = "error" /\ v[1] \in {"exc", "err_copy"} /\ ~T.faulty THEN {"C05.noartefact"} ELSE {})
       \cup
       (IF T.amb THEN {}
        ELSE CASE sr[1] = "V" ->
